@@ -61,8 +61,6 @@ impl Parser {
 pub open spec fn call_name(c: GlobalCallContext) -> Seq<char> {
     if c.leadingDot is Some { seq!['.'] + tok_text(*c.id->Some_0) } else { tok_text(*c.id->Some_0) }
 }
-pub assume_specification<T: std::ops::Deref> [std::option::Option::<T>::as_deref] (o: &std::option::Option<T>) -> (r: std::option::Option<&<T as std::ops::Deref>::Target>)
-    ensures r is Some <==> o is Some;
 // ---- list and map literals ----
 pub struct OptExprContextAll { pub e: Option<Rc<ExprContextAll>>, pub opt: Option<Box<CommonToken>> }
 pub struct ListInitContextAll { pub elems: Vec<Rc<OptExprContextAll>> }
